@@ -52,6 +52,9 @@ class Rig:
         for t, lv in enumerate(pt.chains):
             lv._stats[0] = {'logl': float(logls[t]), 'logp': -1.0 - t}
             lv._positions[0] = {'x': 100.0 + t}          # tag: which state sits where
+            if pt.hasblobs:
+                for f_ in lv._blobs.data.dtype.names:
+                    lv._blobs.data[f_][0] = 200.0 + t      # and which blob
         script = list(us)
         used = [0]
 
@@ -66,6 +69,12 @@ class Rig:
         ars = [float(x) for x in numpy.atleast_1d(pt._temperature_acceptance.data['acceptance_ratio'][0])]
         tags = [int(round(float(lv._positions.data[0]['x']) - 100.0)) for lv in pt.chains]
         newl = [float(lv._stats.data[0]['logl']) for lv in pt.chains]
+        if pt.hasblobs:
+            # the blob travels with the state: a level that does not hold the blob of its new occupant is reported as holding another state
+            f0 = pt.chains[0]._blobs.data.dtype.names[0]
+            btags = [int(round(float(lv._blobs.data[f0][0]) - 200.0)) for lv in pt.chains]
+            if btags != tags:
+                tags = [('state %d with the blob of state %d' % (a, b)) if a != b else a for a, b in zip(tags, btags)]
         return idx, ars, used[0], tags, newl
 
 
@@ -240,7 +249,7 @@ def run(seed, tier):
                                    'levels is %r' % (t, t + 1, ars[t], e))
                             break
                 if bad is None and (tags != idx or any(abs(newl[t] - logls[idx[t]]) > 0 for t in range(n))):
-                    bad = 'states were not moved along swap_index'
+                    bad = 'states were not moved along swap_index %s: the levels now hold %s' % (idx, tags)
                 if bad:
                     out.violations.append(dict(what=bad, replay=meta[-1]))
                 if len(out.samples) < 3 and nsw:
